@@ -366,6 +366,11 @@ func ExpectVal(kv KV, viaRestore bool, now int64) *vfdoubles.Val {
 			}
 			v.Hash[f] = kv.Items[i+1]
 		}
+	case 15:
+		v.Kind = "data:stream"
+		for _, op := range kv.Ops {
+			v.Ops = append(v.Ops, append([]string(nil), op...))
+		}
 	}
 	return v
 }
@@ -420,8 +425,8 @@ func Check(s *vfutil.Session, c *Case, r *Run) {
 			if len(q.Args) < 2 || string(q.Args[1]) != k.Key || q.DB != k.DB {
 				continue
 			}
-			if cmd == "exists" {
-				continue
+			if cmd == "exists" || cmd == "select" {
+				continue // EXISTS reads; SELECT's argument is a DB number, not a key
 			}
 			if cmd == "restore" {
 				rep := false
